@@ -83,6 +83,10 @@ type BlockPipeline struct {
 	wg              sync.WaitGroup
 	mu              sync.Mutex   // protects Start/Stop
 	submitMu        sync.RWMutex // protects Submit against concurrent Stop
+	// submitOrder is a one-slot semaphore held while a submission allocates
+	// its sequence number and enters submitChan, so that numbers are only
+	// consumed by items that actually enter the pipeline
+	submitOrder chan struct{}
 }
 
 // NewBlockPipeline creates a new BlockPipeline using functional options.
@@ -100,8 +104,9 @@ func NewBlockPipeline(opts ...PipelineOption) *BlockPipeline {
 		opt(&config)
 	}
 	return &BlockPipeline{
-		config:  config,
-		metrics: NewPipelineMetrics(config.MetricsWindowSize),
+		config:      config,
+		metrics:     NewPipelineMetrics(config.MetricsWindowSize),
+		submitOrder: make(chan struct{}, 1),
 	}
 }
 
@@ -225,18 +230,27 @@ func (p *BlockPipeline) Submit(ctx context.Context, blockType uint, rawCbor []by
 		return ErrPipelineStopped
 	}
 
-	// Allocate sequence number only once, then send.
-	// We use a single blocking select to avoid sequence gaps that would occur
-	// if we allocated in a non-blocking attempt that failed.
-	item := NewBlockItem(blockType, rawCbor, tip, p.sequenceCounter.Add(1)-1)
+	// Take the submit slot. The sequence number is only consumed once the item
+	// has entered submitChan: a submission that gives up (e.g. because the
+	// caller's context expired while the pipeline applied backpressure) must
+	// not leave a gap, since the apply stage waits for every number in turn.
+	select {
+	case p.submitOrder <- struct{}{}:
+	case <-ctx.Done():
+		return ctx.Err()
+	case <-p.ctx.Done():
+		return ErrPipelineStopped
+	}
+	defer func() { <-p.submitOrder }()
+
+	item := NewBlockItem(blockType, rawCbor, tip, p.sequenceCounter.Load())
 
 	select {
 	case p.submitChan <- item:
+		p.sequenceCounter.Add(1)
 		p.metrics.RecordSubmit()
 		return nil
 	case <-ctx.Done():
-		// Context cancelled while waiting - sequence gap is acceptable
-		// because this typically means shutdown.
 		return ctx.Err()
 	case <-p.ctx.Done():
 		return ErrPipelineStopped
